@@ -5,6 +5,7 @@ from scen import *
 
 INPUTS = [('key', key(0)), ('mbutton', mbutton(0)), ('motion', motion()), ('wheel', wheel())]
 CONDS = [('none', []), ('press', ['(c_press 1/2)']), ('hold', ['(c_hold 1/8 false 1/2 false)'])]
+EDGE = ['(c_just_press 1/2)', '(c_release 1/2)', '(c_tap 1/4 1/2 false)']
 
 def build(rng, L, hows):
     ids = Ids()
@@ -14,6 +15,9 @@ def build(rng, L, hows):
         for (cname, conds) in CONDS:
             a = aid(k % 4, k // 4, False, False); k += 1
             acts.append(action(ids, a, [bind(ids, inp, [PROBE], list(conds))]))
+    # edge-triggered conditions at action level: they must see every frame, also the idle ones
+    for j, c in enumerate(EDGE):
+        acts.append(action(ids, aid(j % 4, 3, False, True), [bind(ids, key(0), [PROBE], [])], [], [c]))
     cfg = {(0, 0): spec(acts)}
     steps = [sop(spawn(0, [0])), frame(raw())]
     cur = set()
@@ -23,7 +27,10 @@ def build(rng, L, hows):
                 if rng.random() < .5: cur ^= {n}
         rw = raw(keys=[0] if 'key' in cur else [], mbuttons=[0] if 'mbutton' in cur else [],
                  motion=(F(1), F(1, 2)) if 'motion' in cur else (F(0), F(0)), wheel=(F(0), F(1)) if 'wheel' in cur else (F(0), F(0)))
-        steps.append(frame(rw, rand_dt(rng, maxe=7), how=hows[i % len(hows)]))
+        # sub-frame taps (pressed and released by window events before the frame) on inputs that are not held: they never
+        # show in ButtonInput::pressed and must not be reflected at all
+        taps = rng.randrange(32) if rng.random() < 0.4 else 0
+        steps.append(frame(rw, rand_dt(rng, maxe=7), how=hows[i % len(hows)] + 4 * taps))
     return scenario([0], [0], cfg, steps)
 
 def cases(tier, rng):
@@ -38,13 +45,13 @@ def nontrivial(case, out):
 
 STAGES = [dict(name='schedule', mode='app', coq='Check.C09c', cases=cases, nontrivial=nontrivial, shard=20,
                exhaustive={'thorough': False, 'quick': False},
-               rule='one context with 12 actions: {key, mouse button, mouse motion, wheel} x {no condition, Press, Hold}; raw input injected as window events before the frame, by resource mutation '
+               rule='one context with 15 actions: {key, mouse button, mouse motion, wheel} x {no condition, Press, Hold} and a key with action-level JustPress / Release / Tap; sub-frame taps (press + release events within one frame) on inputs that are not held; raw input injected as window events before the frame, by resource mutation '
                     'between frames, or from a system in First (fixed and mixed modes); harness systems: a marker before the crate\'s set, a marker + snapshot probe ordered after the set in PreUpdate, a snapshot '
                     'probe in Update; sticky random scripts of 6-20 frames. non-trivial = an episode starts; distinct = distinct scenario text')]
 CLAUSES = {1: 'data polled by a PreUpdate system ordered after the crate\'s set differs from the data polled in Update', 2: 'data polled in Update differs from the data at the end of the frame',
            3: 'action events were delivered before the crate\'s set ran in this frame (late delivery from the previous frame)', 4: 'action events of the frame were delivered after the probe ordered after the crate\'s set',
            5: 'a frame that did not change an action\'s state delivered Started, Canceled or Completed', 6: 'a binding did not read this frame\'s raw input (one-frame lag)',
-           7: 'the state of a level-triggered action is not the function of this frame\'s raw input', 8: 'equal raw input in two consecutive frames gave different states for a level-triggered action',
+           7: 'the state of a level-triggered action is not the function of this frame\'s raw input', 8: 'equal raw input in two consecutive frames gave different states for a level-triggered action', 10: 'an action-level JustPress did not fire exactly on the frame its input became active (a frame was not reflected)',
            18: 'panic', 19: 'malformed trace', 20: 'panic'}
 def describe(stage, clause): return CLAUSES.get(clause, 'clause %d' % clause)
 def matches_known(k, case, verdict): return False
